@@ -281,3 +281,7 @@ RULE = ("leg A: TLC explores CsrMux_MC on curated layouts (unaligned, padded, ze
 
 def main(prop, tier):
     return hwcheck.check(prop, tier, Adapter(), RULE)
+
+
+def replay(path):
+    return hwcheck.replay(path, [Adapter()])
